@@ -112,7 +112,7 @@ func (t *Term) String() string {
 	case "sym":
 		return t.Name
 	case "zeroarr":
-		return "((as const (Array Int Int)) 0)"
+		return "ZERO"
 	}
 	var sb strings.Builder
 	t.write(&sb)
